@@ -325,9 +325,9 @@ def _quantified(expr):
     return None
 
 
-def _policy(run, F, BASE):
+def _policy(run, F, BASE, rid=rid):
     P, A = run.P, run.A
-    run.rule("R4", "generate_pin returns only a value accepted by is_valid (full policy, no any_pin); "
+    run.rule(rid, "generate_pin returns only a value accepted by is_valid (full policy, no any_pin); "
              "is_valid without any_pin is truthy only if: type bytes, every char in letters+digits, "
              "length == PIN_LENGTH (== firmware MAX_PIN_LENGTH == 8), some char in letters; "
              "FileBasedPin.__init__ rejects an invalid stored/default PIN.")
@@ -336,14 +336,14 @@ def _policy(run, F, BASE):
     isv = P.method(BASE, "is_valid")
     gg = A.cfg(gen, BASE)
     rets = [n for n in A.own_nodes(gen) if isinstance(n, ast.Return)]
-    run.floor("R4", "returns in generate_pin", len(rets), 1)
+    run.floor(rid, "returns in generate_pin", len(rets), 1)
     for r in rets:
         for rn in gg.nodes_of(r):
             facts = F.local(gen, BASE, rn)
             good = [f for f in facts if f.kind == "call" and f.pol and call_name(f.expr) == "is_valid"
                     and len(f.expr.args) == 1 and not f.expr.keywords
                     and norm(f.expr.args[0]) == norm(r.value)]
-            run.check("R4", bool(good), "generate_pin's return dominated by is_valid(<returned value>)",
+            run.check(rid, bool(good), "generate_pin's return dominated by is_valid(<returned value>)",
                       key="BasePin.generate_pin|return|validated", where=gen.loc(r),
                       message=f"generate_pin can return `{norm(r.value)}` without it having passed "
                               "is_valid(...) (full policy): a generated PIN may violate the device policy")
@@ -359,22 +359,22 @@ def _policy(run, F, BASE):
                             if t in gg.dominators(rn) and gg.exists_path(t, dn) and gg.exists_path(dn, rn) \
                                     and not gg.exists_path(dn, good[0].node):
                                 redef = True
-                run.check("R4", not redef, "validated value not modified before return",
+                run.check(rid, not redef, "validated value not modified before return",
                           key="BasePin.generate_pin|return|modified-after-check", where=gen.loc(r),
                           message="generate_pin modifies the PIN after validating it")
     # constants
     pc = P.class_const(BASE, "POSSIBLE_CHARS")
     ac = P.class_const(BASE, "ALPHA_CHARS")
     pl = P.class_const(BASE, "PIN_LENGTH")
-    run.check("R4", isinstance(pc, str) and set(pc) == set(string.ascii_letters + string.digits),
+    run.check(rid, isinstance(pc, str) and set(pc) == set(string.ascii_letters + string.digits),
               "POSSIBLE_CHARS == ASCII letters + digits", key="BasePin.POSSIBLE_CHARS|value", where=BASE.module.relpath,
               message=f"POSSIBLE_CHARS is {pc!r}, policy says ASCII letters and digits")
-    run.check("R4", isinstance(ac, str) and set(ac) == set(string.ascii_letters),
+    run.check(rid, isinstance(ac, str) and set(ac) == set(string.ascii_letters),
               "ALPHA_CHARS == ASCII letters", key="BasePin.ALPHA_CHARS|value", where=BASE.module.relpath,
               message=f"ALPHA_CHARS is {ac!r}, policy says ASCII letters")
     fw = firmware(run)
     mpl = fw.define("common/src/pin_policy.h", "MAX_PIN_LENGTH")
-    run.check("R4", pl == 8 and pl == mpl, "PIN_LENGTH == 8 == firmware MAX_PIN_LENGTH",
+    run.check(rid, pl == 8 and pl == mpl, "PIN_LENGTH == 8 == firmware MAX_PIN_LENGTH",
               key="BasePin.PIN_LENGTH|value", where=BASE.module.relpath,
               message=f"PIN_LENGTH is {pl}, firmware MAX_PIN_LENGTH is {mpl}, statement says 8")
     # is_valid: every non-False return on the any_pin == False partition passes the four atoms
@@ -404,14 +404,14 @@ def _policy(run, F, BASE):
                 need = {"type", "charset", "length", "alpha"}
                 tag = "policy"
             missing = need - atoms
-            run.check("R4", not missing, f"is_valid ({tag} return) requires {sorted(need)}",
+            run.check(rid, not missing, f"is_valid ({tag} return) requires {sorted(need)}",
                       key=f"BasePin.is_valid|{tag}|atoms:{','.join(sorted(missing))}", where=isv.loc(r),
                       message=f"is_valid can return a non-False value ({tag} branch, `{norm(v)[:60]}`) "
                               f"without having established: {sorted(missing)}"
                               + (f"; weaker/unrecognised predicate(s) used instead: {weak}" if weak else ""))
     # any_pin only by explicit parameter, default False
     d = isv.node.args.defaults
-    run.check("R4", anyp == "any_pin" and len(d) == 1 and isinstance(d[0], ast.Constant) and d[0].value is False,
+    run.check(rid, anyp == "any_pin" and len(d) == 1 and isinstance(d[0], ast.Constant) and d[0].value is False,
               "any_pin defaults to False", key="BasePin.is_valid|any_pin-default", where=isv.loc(),
               message="is_valid's any_pin parameter does not default to False")
     # FileBasedPin.__init__ validates the loaded pin
@@ -421,7 +421,7 @@ def _policy(run, F, BASE):
     facts = F.at(ini, PIN, gi.exit)
     good = [f for f in facts if f.kind == "call" and f.pol and call_name(f.expr) == "is_valid"
             and len(f.expr.args) == 1 and not f.expr.keywords and norm(f.expr.args[0]) == "self._pin"]
-    run.check("R4", bool(good), "FileBasedPin.__init__ completes only with a policy-valid PIN",
+    run.check(rid, bool(good), "FileBasedPin.__init__ completes only with a policy-valid PIN",
               key="FileBasedPin.__init__|validates", where=ini.loc(),
               message="FileBasedPin.__init__ can complete with a stored/default PIN that fails the policy")
 
